@@ -532,7 +532,7 @@ PROPS['C12'] = dict(
     jobs=[
         dict(name='pipelab', bin='pipelab', variant='asan', mode='c12',
              quick=100000, thorough=3000000, leak_check=True,
-             require=['c12.lodging_checks', 'c12.answered', 'c12.replumb', 'c12.bin_inner_replaced',
+             require=['c12.lodging_checks', 'c12.answered', 'c12.replumb', 'c12.bin_inner_replaced', 'c12.bins_replacing_their_inner_in_two_steps',
                       'c12.unregister', 'c12.chains_with_queue',
                       'c12.renewed_in_callback', 'c12.output_owned_by_the_pipeline',
                       'c12.bursts_overflowing_the_oob_queue']),
